@@ -62,6 +62,10 @@ func c05States(c mcfg) []c05State {
 	// a Tversion the server refuses changes nothing: the rules of the negotiated dialect go on applying
 	st = append(st, c05State{"dir-unopened-after-refused-Tversion", []mevent{att, dir, {Op: "badversion"}}})
 	st = append(st, c05State{"file-unopened-after-refused-Tversion", []mevent{att, file, {Op: "badversion"}}})
+	// an implementation that answers a plain create with the qid of a directory: the fid is a directory, open for writing
+	for _, m := range []uint8{1, 2} {
+		st = append(st, c05State{fmt.Sprintf("created-plain-but-answered-as-directory-open-mode%d", m), []mevent{att, dir, {Op: "create", Fid: 1, Name: "asdir", Perm: 0644, Mode: m}}})
+	}
 	st = append(st, c05State{"created-dir-open-OREAD", []mevent{att, dir, {Op: "create", Fid: 1, Name: "nd", Perm: go9p.DMDIR | 0755, Mode: 0}}})
 	if c.Auth {
 		st = append(st, c05State{"auth-fid", []mevent{att, {Op: "auth", Afid: 1, Uid: 7, Uname: "glenda"}}})
